@@ -261,6 +261,7 @@ func mutants() []mutant {
 	add("mhg=height-1", 1, func(b *blockchain.Block, p *pre) { b.Header.MaxHeightGenerated = b.Header.Height - 1 })
 	add("mhg=0", 1, func(b *blockchain.Block, p *pre) { b.Header.MaxHeightGenerated = 0 })
 	add("mhg-1", 1, func(b *blockchain.Block, p *pre) { b.Header.MaxHeightGenerated-- })
+	add("implies-max-prevotes-flipped", 1, func(b *blockchain.Block, p *pre) { b.Header.ImpliesMaxPrevotes = !b.Header.ImpliesMaxPrevotes })
 	add("validatorshash=random", 1, func(b *blockchain.Block, p *pre) { b.Header.ValidatorsHash = rnd32(11) })
 	add("validatorshash=other-set", 1, func(b *blockchain.Block, p *pre) {
 		vs := p.n.Cfg.ValChangeMenu[0]
